@@ -137,6 +137,15 @@ def answer (l : String) : String :=
       let y2 := formatData d (toLongRag 0 (ragCurves g rows))
       sep (sep (showVec y1) (showVec y2)) (sep (showVec (formatWeights y1)) (showVec (formatWeights y2)))
     | _, _, _, _ => "bad"
+  | ["pool", g, v, m, ap] =>
+    -- the samples handed to the mean smoother (pooled long table, binned above 2000 when approx)
+    match parseVec? g, parseMat? v, parseMat? m with
+    | some g, some V, some M =>
+      let rows := mkRows V M
+      let approx := ap = "1"
+      sep (showPairsQ (meanInputs approx (toLongNaN 0 (nanCurves g rows))))
+          (showPairsQ (meanInputs approx (toLongRag 0 (ragCurves g rows))))
+    | _, _, _ => "bad"
   | ["todense", g, v, m] =>
     match parseVec? g, parseMat? v, parseMat? m with
     | some g, some V, some M =>
